@@ -32,7 +32,8 @@ class C19(BaseCheck):
   REQUIRED_ANCHORS = ANCHORS
   REQUIRED_CLASSES = ('parent-deleted', 'parent-recreated-same-names', 'parent-recreated-different-names',
                       'callback-raised', 'burst', 'non-member-child', 'path-created-later', 'vanished-before-read', 'fast-recreate',
-                      'same-name-recreated', 'blip', 'restart-same-endpoint')
+                      'same-name-recreated', 'blip', 'restart-same-endpoint',
+                      'blip:names-taken-by-other-servers')
   ASSUMPTIONS = ('member znodes get fresh sequential names within one incarnation of the watched path (as '
                  'ZooKeeper sequential nodes do); a name is used again only after the path itself was re-created, '
                  'or for a node that was deleted before the client could read it and is registered again with the '
@@ -269,8 +270,11 @@ class C19(BaseCheck):
         classes.add('fast-recreate')
         zk.create_node(path)
         keep = saved[:rng.randint(0, len(saved))] if rng.random() < 0.7 else []
+        other_servers = rng.random() < 0.5     # the names are taken by different servers this time
+        if keep and other_servers:
+          classes.add('blip:names-taken-by-other-servers')
         for n_, d_ in keep:
-          zk.create_node(path + '/' + n_, d_)
+          zk.create_node(path + '/' + n_, member_data() if other_servers else d_)
           if lat_cls != 'zero' and rng.random() < 0.3:
             gevent.sleep(rng.random() * zk.latency[1])
         if keep:
